@@ -382,6 +382,7 @@ def _backtrack_line_search(X, y, w, Xw, fit_intercept, datafit, penalty, delta_w
     ws_intercept = np.append(ws, -1) if fit_intercept else ws
     # TODO: could be improved by passing in w[ws]
     old_penalty_val = penalty.value(w[:n_features])
+    old_obj = datafit.value(y, w[:n_features], Xw) + old_penalty_val
 
     # try step = 1, 1/2, 1/4, ...
     for _ in range(MAX_BACKTRACK_ITER):
@@ -406,8 +407,13 @@ def _backtrack_line_search(X, y, w, Xw, fit_intercept, datafit, penalty, delta_w
             prev_step = step
             step /= 2
     else:
-        pass
-        # TODO this case is not handled yet
+        # no step satisfies the decrease condition: go back to the initial point
+        # if the smallest step increased the objective (beyond rounding errors)
+        new_obj = datafit.value(y, w[:n_features], Xw) + penalty.value(w[:n_features])
+        if new_obj - old_obj > 1e-12 * max(1., abs(old_obj)):
+            w[ws_intercept] -= prev_step * delta_w_ws
+            Xw -= prev_step * X_delta_w_ws
+            grad_ws = _construct_grad(X, y, w[:n_features], Xw, datafit, ws)
 
     return grad_ws
 
@@ -421,6 +427,7 @@ def _backtrack_line_search_s(X_data, X_indptr, X_indices, y, w, Xw, fit_intercep
     ws_intercept = np.append(ws, -1) if fit_intercept else ws
     # TODO: could be improved by passing in w[ws]
     old_penalty_val = penalty.value(w[:n_features])
+    old_obj = datafit.value(y, w[:n_features], Xw) + old_penalty_val
 
     for _ in range(MAX_BACKTRACK_ITER):
         w[ws_intercept] += (step - prev_step) * delta_w_ws
@@ -445,7 +452,14 @@ def _backtrack_line_search_s(X_data, X_indptr, X_indices, y, w, Xw, fit_intercep
             prev_step = step
             step /= 2
     else:
-        pass  # TODO
+        # no step satisfies the decrease condition: go back to the initial point
+        # if the smallest step increased the objective (beyond rounding errors)
+        new_obj = datafit.value(y, w[:n_features], Xw) + penalty.value(w[:n_features])
+        if new_obj - old_obj > 1e-12 * max(1., abs(old_obj)):
+            w[ws_intercept] -= prev_step * delta_w_ws
+            Xw -= prev_step * X_delta_w_ws
+            grad_ws = _construct_grad_sparse(X_data, X_indptr, X_indices,
+                                             y, w[:n_features], Xw, datafit, ws)
 
     return grad_ws
 
